@@ -164,13 +164,19 @@ def generate(tier, seed):
     for name, po in (('taken predicate (shared private)', 'definition: forall X (r(X) <-> q(X)).'),):
         items.append({'family': 'definition-acceptance', 'task': BASE_TASKS[3], 'outline': po, 'expect_refused': name,
                       'label': 'bad definition on a task with a shared private predicate (%s): %s' % (name, po)})
-    for t in BASE_TASKS:
+    extra = [('input-only-in-assumption', 'program', 'p(X) :- q(X).', 'p(X) :- q(X), X > 1.',
+              'input: q/1. input: r/1. output: p/1. assumption: exists X r(X).'),
+             ('declared-but-unused', 'program', 'p(X) :- q(X).', 'p(X) :- q(X), not not q(X).', 'input: q/1. input: u/2. output: p/1. output: w/0.')]
+    for t in BASE_TASKS + extra:
         items.append({'family': 'definition-acceptance', 'kind': 'emitted-names-taken', 'task': t,
                       'label': 'every predicate emitted for task %s is taken' % t[0]})
     for po in DEFINITIONS:
         pre = DEFINITIONS[0] + ' ' if 'd(X)' in po and po != DEFINITIONS[0] else ''
         items.append({'family': 'definition-acceptance', 'task': BASE_TASKS[0], 'outline': pre + po, 'expect_refused': None,
                       'label': 'good definition: %s' % po})
+    for t, po in ((BASE_TASKS[0], DEFINITIONS[0] + ' ' + LEMMAS[5] + ' ' + INDUCTIVE[0]), (BASE_TASKS[2], LEMMAS[1] + ' ' + LEMMAS[2]),
+                  (BASE_TASKS[3], 'lemma(forward): forall X (q(X) -> X > 10). lemma: forall X (q(X) -> X > 20).'), (BASE_TASKS[0], BAD_DEFINITIONS[0][1])):
+        items.append({'family': 'cli-agreement', 'task': t, 'outline': po, 'cli': True, 'label': 'cli %s + %s' % (t[0], po[:80])})
     return items
 
 
@@ -204,6 +210,9 @@ def check_emitted_names_taken(b, item):
     for p in parse_problems(resp0[0]):
         for f in p['formulas']:
             emitted |= fol_preds(f['formula'])
+    # ... and the predicates the user guide declares, whether or not any formula mentions them
+    inputs, outputs, _, _, _ = ug_info(b.call('parse_ug', Q(task[4]))[0])
+    emitted |= set(inputs) | set(outputs)
     out = []
     for (n, a) in sorted(emitted):
         vs = ' '.join('X%d' % i for i in range(a))
@@ -223,8 +232,25 @@ def check_emitted_names_taken(b, item):
     return out
 
 
+def check_cli(b, item):
+    from .c03 import flags_of
+    from . import cliagree
+    name, kind, left, right, ug = item['task']
+    po = item['outline']
+    out = []
+    for direction, dec, simp, eqb in (('universal', 'sequential', True, True), ('backward', 'independent', False, False)):
+        req = ('external_task', Q(kind), Q(left), Q(right), Q(ug), Q(po), Q(direction), Q(dec), Q(str(simp).lower()), Q(str(eqb).lower()), Q('false'))
+        first = 'zz_first.lp' if kind == 'program' else 'zz_first.spec'
+        out.append(cliagree.verify(b, item['family'], '%s#%s#%s-%s' % (name, po[:60], direction, dec), 'external',
+                                   {first: left + '\n', 'aa_second.lp': right + '\n', 'mm_guide.ug': ug + '\n', 'kk_outline.po': po + '\n'},
+                                   [first, 'aa_second.lp', 'mm_guide.ug', 'kk_outline.po'], req, flags_of(direction, dec, simp, eqb)))
+    return out
+
+
 def check_item(item):
     b = bridge_mod.get()
+    if item.get('cli'):
+        return check_cli(b, item)
     if item.get('kind') == 'emitted-names-taken':
         return check_emitted_names_taken(b, item)
     task = item['task']
@@ -428,7 +454,7 @@ def replay(r):
 
 def describe(tier):
     return {
-        'rule': 'for each base task, a definition of every predicate name its outline-less problems use (must be refused); outlines attached to 4 small external-equivalence tasks (program/program, with an integer placeholder, '
+        'rule': 'CLI agreement: 4 outlined tasks x 2 flag sets through `anthem verify --equivalence external --save-problems` must print/save byte for byte what the library call returns; for each base task, a definition of every predicate name its outline-less problems use (must be refused); outlines attached to 4 small external-equivalence tasks (program/program, with an integer placeholder, '
                 'specification/program, clashing private predicates): every lemma / inductive lemma of the pools alone, seeded '
                 'sequences of 2-4 lemmas interleaved with 0-3 definitions (all direction annotations, free variables, induction '
                 'variable re-bound inside F, negative n), 16 outlines with a definition violating exactly one acceptance '
